@@ -17,7 +17,7 @@ TECHNIQUE = 'Coq proof (constraint invariant preserved by every checked operatio
 LEVEL_TEXT = ("Theorems in Properties_C05.v about Model/RegTable.v: the invariant 'initialised, areas and entries ordered and disjoint, areas full, every register wholly inside one area, 16-bit words, every decodable register satisfies its constraint' is preserved by EVERY checked operation - typed set, bit set, bit clear, block write across area borders, sanitise - accepted or refused, with well-typed operands, and therefore by every history of them (induction over the history); it is ESTABLISHED by every successful initialisation of a plain table, after which every register reads its default (C05_invariant_established_by_init); it is RE-ESTABLISHED by a successful sanitise after ARBITRARY out-of-band corruption of the stored words: registers whose content decodes and satisfies the constraint keep it, all others hold their default, all touched marks are cleared (C05_sanitise_after_corruption); under it every value a get delivers satisfies its register's constraint; frame lemma, distinctness of registers, read-after-write for the flat word memory; refused operations change nothing; bit set/clear change exactly the requested bits.  Registers with the always-failing constraint are outside the invariant by construction (their default validates only during initialisation).")
 LEVEL_NOTE = 'Trusted: Coq kernel; hand model of registers/core.c (correspondence-tested on long histories incl. corruption + sanitise); validator callbacks assumed pure. No axioms.'
 
-def gen(rng, tier):
+def gen0(rng, tier):
     big = tier == 'thorough'
     for it in range(2000 if big else 200):
         tab = family_table(rng)
@@ -64,3 +64,8 @@ def gen(rng, tier):
 
 def nontrivial(c):
     return True
+
+def gen(rng, tier):
+    yield from gen0(rng, tier)
+    # histories over tables whose highest area ends at 2^32
+    yield from at_top(gen0, rng, tier, 200 if tier == 'thorough' else 25)
